@@ -368,8 +368,29 @@ func ruleR07_1(p *Program, r *Report) {
 					if w.cmp.Op == token.EQL {
 						mis = blk.Succs[1]
 					}
+					// when the comparison lives in a verifying helper that hands its verdict to Read, and Read records every
+					// non-nil verdict, returning a non-nil sentinel from the mismatch edge is as good as recording it there
+					callerRecords := false
+					if ctx.vcall != nil {
+						callerRecords = NewErrTrack(p, ctx.fn, ctx.vcall, KindNonNil, ctx.tr).StoredTo(ctx.recv, "."+ctx.tr.Sticky)
+					}
 					// from the mismatch edge every path stores a non-nil, non-EOF sentinel to the sticky field before returning
-					found, _, _ := PathQuery{Target: func(x ssa.Instruction) bool { _, ok := x.(*ssa.Return); return ok }, Barrier: func(x ssa.Instruction) bool {
+					sentinelRet := func(x ssa.Instruction) bool {
+						ret, isRet := x.(*ssa.Return)
+						if !isRet || !callerRecords {
+							return false
+						}
+						if e := returnErr(ret); e != nil {
+							if g := globalLoad(e); g != nil && p.InRepo(&ssa.Function{Pkg: g.Pkg}) && p.initOnlyNonNil(g) {
+								return true
+							}
+						}
+						return false
+					}
+					found, _, _ := PathQuery{Target: func(x ssa.Instruction) bool { _, ok := x.(*ssa.Return); return ok && !sentinelRet(x) }, Barrier: func(x ssa.Instruction) bool {
+						if sentinelRet(x) {
+							return true
+						}
 						st, ok := x.(*ssa.Store)
 						if !ok || !isStickyStore(st, ctx.vrecv, ctx.tr.Sticky) {
 							return false
